@@ -67,6 +67,8 @@ def _describe(conn, name, obj):
             return 'task-error'
         if name == 'CANCEL' and str(conn.owner).startswith('client'):
             return 'client-cancel'
+        if name == 'CANCEL' and str(conn.peer).startswith('w'):
+            return 'cancel-down'
     except Exception:
         pass
     return ''
@@ -78,7 +80,11 @@ class RaceSched:
     same node too; a select() that can choose then reads the connection carrying `early` first.  Every such order is
     realisable in the real system by timing (a busy server reads its sockets late and in any order); uniform random
     scheduling reaches it rarely because the reader would have to lose dozens of coin flips in a row.
-    Kinds: 'root-result' (RESULT of a compilation's root task), 'task-error' (ERROR of a task), 'client-cancel'."""
+    Kinds: 'root-result' (RESULT of a compilation's root task), 'task-error' (ERROR of a task), 'client-cancel' (a client's
+    CANCEL on its way to the server), 'cancel-down' (a CANCEL on its way to a worker); early = 'none' just holds the reader's
+    main thread back while `late` is on its way (e.g. ['race', seed, 'none', 'cancel-down']: a worker's main thread does not
+    look at its ready queue while a CANCEL is travelling to that worker, so tasks woken meanwhile are still queued when the
+    CANCEL is handled)."""
 
     def __init__(self, seed, early, late):
         import random as _random
@@ -182,6 +188,10 @@ def _task_id_of(task):
         return 0
 
 
+def _addr_key(a):
+    return (int(a.worker_id), int(a.mailbox_index), int(a.mailbox_slot))
+
+
 def _raise_precedes_cancellation(k):
     """Statistics only (the verdict is L1's): was task k, when its body raised, not yet cancelled work by the events logged
     so far - no explicit cancel of, and no returned owner leaving unconsumed, a future that k or an ancestor hangs on?"""
@@ -241,6 +251,8 @@ class Run:
                     self.k.trace_lines(f)
         self.net.send_hooks.append(self._on_send)
         self.inflight = {}         # id(channel) -> [reader node, deque of message kinds (see _describe) still in the channel]
+        self.addr2id = {}          # (worker id, mailbox, slot) of a task's return address -> L1 task id, learnt when it is forwarded
+        self.cseen = set()         # (worker id, task id): that worker has received the CANCEL for that task
         self.net.send_hooks.append(self._track_send)
         self.net.recv_hooks.append(self._track_recv)
         inner = getattr(self.sched, 'inner', None)
@@ -260,6 +272,16 @@ class Run:
         ent = self.inflight.get(id(conn.rx))
         if ent and ent[1]:
             ent[1].popleft()
+        # a worker receives a CANCEL: its incoming thread handles messages one after the other, so every task handed to this
+        # worker from now on arrives after the cancellation is known there (L1 clause cancelled-task-started-after-...)
+        if getattr(tag, 'name', '') == 'CANCEL' and isinstance(conn.owner, str) and conn.owner.startswith('w'):
+            try:
+                i = self.addr2id.get(_addr_key(obj[1]), 0)
+                if i:
+                    rtprog.ev('CancelSeen', t=i, w=int(conn.owner[1:]))
+                    self.cseen.add((int(conn.owner[1:]), i))
+            except Exception:
+                pass
 
     def _on_its_way(self, kind, reader='server'):
         return any(r == reader and kind in dq for r, dq in self.inflight.values())
@@ -277,6 +299,14 @@ class Run:
                 i = _task_id_of(t)
                 if i:
                     rtprog.ev('Forward', t=i, w=wid)
+                    self.addr2id[_addr_key(t.return_address)] = i
+                    a = i
+                    while a:
+                        if (wid, a) in self.cseen:
+                            # handed to a worker that has already received the CANCEL of this task or of an ancestor
+                            self.stats['forward_after_cancel_seen'] = self.stats.get('forward_after_cancel_seen', 0) + 1
+                            break
+                        a = rtprog.PARENT.get(a, 0)
         elif name in ('RESULT', 'UPDATE') and isinstance(conn.owner, str) and conn.owner.startswith('w'):
             # a worker tells its boss that a task it was given is finished (RESULT for a task whose parent lives elsewhere,
             # UPDATE -1 for one whose parent lives on the same worker): the counterpart of Forward for the C15 bookkeeping
@@ -665,7 +695,26 @@ class Run:
         self.stats['receipt_window_main_ran'] = nran
         self.stats['receipt_window_main_went_idle'] = nwait
 
+    def _late_start_stats(self):
+        """Statistics only: tasks handed to a worker that had already seen the CANCEL of an ancestor - and how many of them started."""
+        seen, late, started = set(), set(), 0
+        for e in rtprog.LOG:
+            if e['e'] == 'CancelSeen':
+                seen.add((e['w'], e['t']))
+            elif e['e'] == 'Forward':
+                a = e['t']
+                while a:
+                    if (e['w'], a) in seen:
+                        late.add(e['t'])
+                        break
+                    a = rtprog.PARENT.get(a, 0)
+            elif e['e'] == 'TaskStart' and e['t'] in late:
+                started += 1
+        if started:
+            self.stats['late_forwarded_task_started'] = started
+
     def finish(self, status):
+        self._late_start_stats()
         evs = []
         defaults = {'t': 0, 'f': 0, 'v': [], 'kids': [], 'w': 0, 'c': 0, 'call': '', 'cid': 0, 'kind': '', 's': '', 'cause': '',
                     'boom': [], 'text': '', 'node': '', 'total': 0, 'idle': 0, 'emps': [], 'blocked': [], 'alive': [],
